@@ -107,3 +107,22 @@ Definition corr_pptx_deck (is_ws : N -> bool) (c : list (list (nat * nat * optio
   let slides := map (map (fun f : nat * nat * option xml =>
                      let '(y, x, t) := f in ((y, x), match t with Some fr => pptx_table is_ws fr | None => None end))) (fst c) in
   opt_eqb tables_eqb (Some (deck_tables slides)) (snd c).
+
+(* --- modelled position keys *)
+From Coq Require Import Floats.SpecFloat.
+(* a recorded CPython float: None = zero, Some (m, e) = m * 2^e exactly; infinities do not occur *)
+Definition f_of_rec (r : option (Z * Z)) : spec_float :=
+  match r with None => f_zero | Some (m, e) => binary_normalize fprec femax m e false end.
+Definition corr_odf_px (is_ws : N -> bool) (c : str * option (Z * Z)) : bool :=
+  f_eqb (odf_length_px is_ws (fst c)) (f_of_rec (snd c))
+  || (match odf_length_px is_ws (fst c), snd c with S754_zero _, None => true | _, _ => false end).
+(* ODP pages (frames through groups, keys from svg:y / svg:x by the modelled parser) *)
+Definition corr_odp_deck_f (is_ws : N -> bool) (c : list xml * option (list (list (list str)))) : bool :=
+  opt_eqb tables_eqb (Some (flat_map (odp_page_tables_f is_ws (lookup_int []) ODF_SKIP) (fst c))) (snd c).
+(* PPTX: _get_shape_position and whole slides (p:spTree elements) *)
+Definition corr_pptx_pos (c : list (str * option Z) * xml * (Z * Z)) : bool :=
+  let '(it, sh, k) := c in
+  let r := pptx_shape_position (lookup_int it) sh in (fst r =? fst k)%Z && (snd r =? snd k)%Z.
+Definition corr_pptx_slides (is_ws : N -> bool) (c : list (str * option Z) * list xml * option (list (list (list str)))) : bool :=
+  let '(it, trees, r) := c in
+  opt_eqb tables_eqb (Some (flat_map (pptx_slide_tables is_ws (lookup_int it)) trees)) r.
